@@ -14,7 +14,9 @@ import (
 	"github.com/sarchlab/akita/v4/simulation"
 	"github.com/sarchlab/mgpusim/v4/amd/benchmarks/amdappsdk/matrixmultiplication"
 	"github.com/sarchlab/mgpusim/v4/amd/benchmarks/amdappsdk/matrixtranspose"
+	"github.com/sarchlab/mgpusim/v4/amd/benchmarks/amdappsdk/nbody"
 	"github.com/sarchlab/mgpusim/v4/amd/benchmarks/rodinia/nw"
+	"github.com/sarchlab/mgpusim/v4/amd/benchmarks/shoc/fft"
 	"github.com/sarchlab/mgpusim/v4/amd/benchmarks/shoc/stencil2d"
 	"github.com/sarchlab/mgpusim/v4/amd/driver"
 	"github.com/sarchlab/mgpusim/v4/amd/emu"
@@ -56,6 +58,14 @@ func newShipped(name string, p []int, d *driver.Driver) shipped {
 	case "nw":
 		b := nw.NewBenchmark(d)
 		b.SetLength(arg(0, 64))
+		return b
+	case "fft":
+		b := fft.NewBenchmark(d)
+		b.Bytes, b.BytesMode, b.Passes = int64(arg(0, 16384)), true, int32(arg(1, 1))
+		return b
+	case "nbody":
+		b := nbody.NewBenchmark(d)
+		b.NumIterations, b.NumParticles = int32(arg(0, 1)), int32(arg(1, 256))
 		return b
 	case "stencil2d":
 		b := stencil2d.NewBenchmark(d)
